@@ -601,6 +601,14 @@ def mech_case(ctx, rng, idx):
 
 
 # ------------------------------------------------------------- controller
+_EM_DEFAULTS = {
+    'GaussianErrorModel': ['Sigma'],
+    'MultiplicativeGaussianErrorModel': ['Sigma rel.'],
+    'ConstantAndMultiplicativeGaussianErrorModel':
+        ['Sigma base', 'Sigma rel.'],
+    'LogNormalErrorModel': ['Sigma log']}
+
+
 def controller_case(ctx, rng, idx):
     n_out = int(rng.integers(1, 3))
     ems = [sorted(D.ERROR_MODELS)[int(rng.integers(4))]
@@ -628,11 +636,47 @@ def controller_case(ctx, rng, idx):
             user_model.fix_parameters({'k': 0.3})
             user_model.fix_parameters({'k': None})
     feats['user_mechanistic_model'] = wrapper
-    c = chi.ProblemModellingController(
-        user_model, [getattr(chi, e)() for e in ems])
+    # how the caller came by the error-model objects: fresh ones, one
+    # instance serving every output, or instances another controller (with
+    # another output layout) was given before
+    em_source = ['separate', 'shared', 'reused', 'separate'][(idx // 3) % 4]
+    if em_source == 'shared' and n_out > 1:
+        ems = [ems[0]] * n_out
+        em_objs = [getattr(chi, ems[0])()] * n_out
+    else:
+        em_objs = [getattr(chi, e)() for e in ems]
+    feats['error_models'] = ems
+    feats['error_model_objects'] = em_source
+    other = None
+    if em_source == 'reused':
+        other = chi.ProblemModellingController(
+            toys.ToyMulti(n_out + 1),
+            em_objs + [chi.GaussianErrorModel()])
+    c = chi.ProblemModellingController(user_model, em_objs)
     c.set_data(data)
     n_ind = c.get_n_parameters()
     first = c.get_parameter_names()
+    ctx.count('controller_name_forms_checked')
+    want = ['a%d' % (o + 1) for o in range(n_out)] + ['k', 'b']
+    for o, e in enumerate(ems):
+        for d in _EM_DEFAULTS[e]:
+            want.append(('Out %d ' % (o + 1) + d) if n_out > 1 else d)
+    if list(first) != want:
+        _bad(ctx, 'controller_names_documented_form',
+             {'names': list(first), 'expected': want}, feats)
+        return
+    if other is not None:
+        # the controller built earlier still reports its own documented names
+        want_o = ['a%d' % (o + 1) for o in range(n_out + 1)] + ['k', 'b']
+        for o, e in enumerate(ems + ['GaussianErrorModel']):
+            for d in _EM_DEFAULTS[e]:
+                want_o.append('Out %d ' % (o + 1) + d)
+        if list(other.get_parameter_names()) != want_o:
+            _bad(ctx, 'controller_names_documented_form',
+                 {'names': list(other.get_parameter_names()),
+                  'expected': want_o, 'who': 'controller built earlier from '
+                  'the same error-model objects'}, feats)
+            return
     if c.get_parameter_names() != first or len(first) != n_ind:
         _bad(ctx, 'controller_counts',
              {'first': first, 'second': c.get_parameter_names(),
@@ -678,6 +722,12 @@ def controller_case(ctx, rng, idx):
                  {'controller': n, 'posterior': np_,
                   'posterior_names': len(post.get_parameter_names()),
                   'predictive': pm.n_parameters(), 'ops': ops}, feats)
+            return
+        if not pop and list(post.get_parameter_names()) != list(names):
+            _bad(ctx, 'controller_vs_posterior_names',
+                 {'controller': list(names),
+                  'posterior': list(post.get_parameter_names()),
+                  'ops': ops}, feats)
             return
         if pop and len(post.get_id()) != np_:
             _bad(ctx, 'controller_posterior_ids',
